@@ -172,6 +172,9 @@ MUTANTS = [
      "if node_start.bytes() < start_bound =>", "if node_start.bytes() <= start_bound =>", "range-test"),
     ("range-end-uses-start-position", "C09", "src/context.rs",
      "match (range.end, node.end_position()) {", "match (range.end, node.start_position()) {", "range-test"),
+    ("unified-diff-ratio-again", "C13", "src/cli/output_diff.rs",
+     "    if text_diff\n        .ops()\n        .iter()\n        .all(|op| matches!(op, DiffOp::Equal { .. }))\n    {",
+     "    if text_diff.ratio() == 1.0 {", "float-comparison-in-diff-decision"),
     ("regex-drop-z", "C04", "src/formatters/general.rs",
      'r#"^[^\\n\\r"\'0-9\\\\abfnrtuvxz]$"#', 'r#"^[^\\n\\r"\'0-9\\\\abfnrtuvx]$"#', "escape-dropped=z"),
     ("group-line-distance", "C12", "src/sort_requires.rs",
